@@ -77,6 +77,14 @@ def test(inp):
     tdim = next((t for t in ('time', 'record') if t in ds.dims), None)
     if tdim:
         edits['fewer time steps'] = lambda d: d.isel({tdim: slice(0, 1)})
+        # one time step: the time coordinate stays behind as a scalar coordinate -- still not geometry
+        edits['first time step alone'] = lambda d: d.isel({tdim: 0})
+        edits['last time step alone'] = lambda d: d.isel({tdim: -1})
+    gdims = [d for d in ds['temp'].dims if d != tdim]
+    if gdims:
+        # auxiliary (non-geometry) coordinates on the grid dimensions: cell areas, labels
+        edits['auxiliary coordinate on the grid'] = lambda d: d.assign_coords(cell_area=(gdims, numpy.full([d.sizes[x] for x in gdims], 2.5)))
+        edits['labels on a grid dimension'] = lambda d: d.assign_coords({'label_' + str(gdims[0]): ((gdims[0],), numpy.arange(d.sizes[gdims[0]]) + 100)})
     for name, f in edits.items():
         d2 = f(datasets.build(spec))
         if type(d2.ems) is not type(ds.ems):
